@@ -38,8 +38,11 @@ def realText (neg : Bool) (micro : Nat) : Text :=
 
 def strText (s : Text) : Text := '\'' :: (escapeQ s ++ ['\''])
 
-/-- `transfer_fn[ty](value)` for a value of the attribute's type; `none` = the call raises
-    (a value of another type, an id outside 0 ≤ n < 2^128) -/
+/-- `transfer_fn[ty](value)` for a value OF THE ATTRIBUTE'S TYPE.  `none` means "outside the modelled domain", not "the
+    call raises": Python formats several ill-typed cells without complaint (`'%d' % True` is `1`, `'%f' % 1` is
+    `1.000000`, `'%d' % 1.5` is `1`), the model does not follow it there; only an id outside 0 ≤ n < 2^128 really raises
+    (`uuid.UUID(int=n)`: ValueError).  Every theorem with the hypothesis `printItems … = some text` therefore speaks
+    about metamodels whose cells hold values of their column's type. -/
 def fmtValue : Ty → Val → Option Text
   | .BOOLEAN, .bool b => some (natText (if b then 1 else 0))
   | .INTEGER, .int z => some (intText z)
